@@ -17,6 +17,7 @@
 #include <usual/crypto/sha256.h>
 #include <usual/crypto/sha512.h>
 #include "hcommon.h"
+#include <unistd.h>
 
 static struct DigestContext *dig;
 static int dig_done;
@@ -104,6 +105,7 @@ int main(void)
 	long long n;
 
 	while ((line = hc_line()) != NULL) {
+		alarm(20);	/* an op that does not return (e.g. a loop that stopped advancing) ends as a crash result */
 		free(in); in = NULL;
 		free(out); out = NULL;
 		nw = hc_words(line, w, 8);
